@@ -20,6 +20,9 @@ given to the Python operations it recognises:
   `deque()`, `.append(x)`, `.popleft()`                `[]`, `q ++ [x]`, `(q.headD 0, q.tail)`
   `while len(queue)>0: body`                           recursion on a fuel argument (`nV + |cut| + 1`, as in the hand model;
                                                        `prune_queue_empty` proves the loop exits by its own condition)
+  `[uf.find(v) for v in F]`                            `findAll uf F`               (state threaded left to right; `none` = ValueError)
+  `[imap[v] for v in F]`                               `mapFace imap F`             (`none` = KeyError)
+  `faces[i] = <list>` inside `for i,F in enumerate(faces)`   the new face list is accumulated in order
 The order in which Python iterates a `set` is not modelled: sets are duplicate-free lists in insertion order.
 -/
 namespace Mouette.CutSrc
@@ -76,5 +79,7 @@ structure ImapSt where
 
 def dhas (m : List (Nat × Nat)) (k : Nat) : Bool := (m.lookup k).isSome
 def dput (m : List (Nat × Nat)) (k v : Nat) : List (Nat × Nat) := m ++ [(k, v)]
+/-- `imap[k]` (KeyError not modelled: every read is guarded or total in the source) -/
+def dget (m : List (Nat × Nat)) (k : Nat) : Nat := (m.lookup k).getD 0
 
 end Mouette.CutSrc
